@@ -3,7 +3,7 @@
 from lib.coqterm import cbytes, cbool, cN, clist, copt, cpair, hx, unhx
 
 ID = "C52"
-QUICK_N = 1200
+QUICK_N = 1000
 THOROUGH_N = 60000
 SHARD = 100
 COQ_PRELUDE = "From MV Require Import Model.ServerPlayback.\n"
